@@ -9,6 +9,7 @@ import (
 	"fmt"
 	"os"
 	"runtime"
+	"sort"
 	"strings"
 	"testing"
 	"testing/synctest"
@@ -237,17 +238,38 @@ func c12Run(t *testing.T, p c12Plan) (res vfResult) {
 					sc.mu.Unlock()
 					var gotLists []map[string]string
 					var rerr error
-					for start := 0; start < 2 && rerr == nil; start++ { // the next start, and the one after it
+					removed := ""
+					for start := 0; start < 3 && rerr == nil; start++ { // the next start, the one after it, and one after a command
 						nr := NewRouter(img + "/r.state")
 						rerr = nr.RestoreLastSavedState()
 						gl := map[string]string{}
 						for n, row := range vfRealList(nr) {
 							gl[n] = row.Target + "|" + row.State
 						}
-						gotLists = append(gotLists, gl)
+						if removed != "" {
+							// the second start ran `remove`: this start must show exactly the others
+							if _, still := gl[removed]; still || len(gl) != len(gotLists[0])-1 {
+								sc.mu.Lock()
+								sc.off = false
+								sc.mu.Unlock()
+								res.failf("crash-image-then-command", "after a kill while %v, a restart, `remove %s` and another restart the proxy lists %v (first restart listed %v)", where, removed, gl, gotLists[0])
+								return
+							}
+						} else {
+							gotLists = append(gotLists, gl)
+						}
 						names := []string{}
 						for n := range gl {
 							names = append(names, n)
+						}
+						sort.Strings(names)
+						if start == 1 && len(names) > 0 && rerr == nil {
+							// the restarted proxy goes on working: a command that makes the state smaller
+							if err := nr.RemoveService(names[0]); err != nil {
+								rerr = err
+							}
+							removed = names[0]
+							names = names[1:]
 						}
 						nr.withWriteLock(func() error { // the restarted process goes away again (without rewriting the image)
 							for _, n := range names {
